@@ -21,7 +21,7 @@ def run(ck, tier):
                "both strands; non-trivial = at least one planted repeat; distinct by content")
     ck.assumptions = [
         "planted copies are at least 1.5 x the minimum hit length and carry at most a third of the differences the "
-        "identity threshold allows ('comfortably above'); recovered = some hit overlaps >= 80% of the copy on both axes",
+        "identity threshold allows ('comfortably above'); recovered = some hit overlaps more than half of the copy on both axes",
         "the score bound is judged by TLC for a sample of hits with regions of at most 170 letters (a quadratic "
         "recurrence in TLC costs seconds per hit); bounds, lengths and error are judged for every hit",
         "a case for which Optimise finds no filter parameters is not searched and not judged",
